@@ -464,6 +464,13 @@ func (p *MinQueriesPlanner) extractSelection(ctx *PlanningContext, config *extra
 			// add it to the list
 			finalSelection = append(finalSelection, selection)
 
+			// the spread stays in this step's query, so the variables its directives use have to be declared there
+			for _, directive := range selection.Directives {
+				for _, variable := range graphql.ExtractVariables(directive.Arguments) {
+					config.step.Variables.Add(variable)
+				}
+			}
+
 			// grab the official definition for the fragment.
 			// we could have overwritten the definition to fit the local needs of the top level
 			// ie if there is a branch off of one that happens mid-fragment.
@@ -541,6 +548,13 @@ func (p *MinQueriesPlanner) extractSelection(ctx *PlanningContext, config *extra
 
 			// overwrite the selection set for this selection
 			selection.SelectionSet = subSelection
+
+			// the fragment stays in this step's query, so the variables its directives use have to be declared there
+			for _, directive := range selection.Directives {
+				for _, variable := range graphql.ExtractVariables(directive.Arguments) {
+					config.step.Variables.Add(variable)
+				}
+			}
 
 			// for now, just add it to the list
 			finalSelection = append(finalSelection, selection)
